@@ -33,6 +33,7 @@ var (
 	fHashOnly = flag.Bool("sim.hashonly", false, "worker: only output trace hashes")
 	fMaxWall  = flag.Int("sim.maxwall", 0, "worker: stop after this many seconds of wall time")
 	fVerbose  = flag.Bool("sim.verbose", false, "dump trace and history")
+	fCaseFile = flag.String("sim.casefile", "", "worker: run this case (JSON) under seed-derived tapes instead of generating cases")
 	fVerifDir = flag.String("sim.dir", "/verif", "verif directory")
 )
 
@@ -217,6 +218,15 @@ func workerMain(t *testing.T) {
 func oneSeed(t *testing.T, scn Scenario, seed uint64, index int, prop string, race bool) *RunResult {
 	rng := rand.New(rand.NewPCG(seed, 0x5851f42d4c957f2d))
 	c := scn.GenCase(rng, prop)
+	if *fCaseFile != "" {
+		raw, err := os.ReadFile(*fCaseFile)
+		if err != nil {
+			panic(err)
+		}
+		if c, err = scn.DecodeCase(raw); err != nil {
+			panic(err)
+		}
+	}
 	tape := sched.NewTape(splitmix64(seed))
 	races0 := raceErrors()
 	t0 := time.Now()
